@@ -483,6 +483,16 @@ def generate(tier, rng):
         yield c
 
 
+def pregen():
+    """regenerate coq/theories/Gen/SetOpArms.v from the current Rust source (translators/setop_arms.py): the arm obligations of
+    Props/C14.v (section on the binary set functions) are stated over that table"""
+    import os, sys
+    from vlib import core
+    sys.path.insert(0, os.path.join(core.ROOT, "translators"))
+    import armlib
+    return armlib.pregen(PROP, [("setop_arms", "theories/Proofs/SetOpArmsP.vo")])
+
+
 def check(tier, seed, replay=None):
     """The standard flow; a harness process that was terminated from outside (SIGTERM: `(abort -15)`, seen when other
     checks' process clean-up hits our mvh children) says nothing about mech, so those cases are run once more."""
